@@ -12,6 +12,7 @@
 (*  "operands" every boundary-class operand x every scale 0..18 (unary operations) *)
 (*  "ints"    d * 10^k for every d <= NMax, k <= 37, read with f <= 18 digits (integral iff k >= f: trailing zeros both ways) *)
 (*  "forms"   operation x integer type x operand position x Decimal class x integer class (C17: every macro-stamped impl) *)
+(*  "knuth"   digit classes of the 256/128-bit division: normalisation shift x divisor words x quotient digit x partial remainder x stage *)
 EXTENDS BigInt, TLC, Json
 CONSTANTS Kind, NMax, DMax, LMax, ScaleSet
 
@@ -60,6 +61,7 @@ Init ==
        [] Kind = "operands" -> a \in SignedAll /\ b = 0
        [] Kind = "ints" -> a \in 1..NMax /\ b = 0
        [] Kind = "forms" -> a \in 1..15 /\ b = 0
+       [] Kind = "knuth" -> a \in 0..5 /\ b = 0
 Next ==
   CASE Kind = "kernel" -> out = "-" /\ \E d \in 1..DMax : out' = ToJson(<<a, d>>) /\ UNCHANGED <<a, b>>
     [] Kind = "small" -> out = "-" /\ \E yc \in YSmall, s \in {-1, 1}, yf \in 0..1, n \in 0..2 :
@@ -75,6 +77,8 @@ Next ==
     [] Kind = "ints" -> out = "-" /\ \E k \in 0..37, f \in 0..18, sg \in {-1, 1} : out' = ToJson(<<a, k, f, sg>>) /\ UNCHANGED <<a, b>>
     [] Kind = "forms" -> out = "-" /\ \E ty \in 0..9, pos \in 0..1, xi \in 1..NMax, ii \in 1..DMax :
                            out' = ToJson(<<a, ty, pos, xi, ii>>) /\ UNCHANGED <<a, b>>
+    [] Kind = "knuth" -> out = "-" /\ \E y1 \in 0..4, y0 \in 0..3, qc \in 0..5, rc \in 0..7, st \in 0..2 :
+                           out' = ToJson(<<a, y1, y0, qc, rc, st>>) /\ UNCHANGED <<a, b>>
 Spec == Init /\ [][Next]_vars
 Emit == out = "-" \/ PrintT("VEC " \o out)
 =======================================================================
